@@ -24,6 +24,10 @@ case format
   resp_packet : enc_val
   conn : "single" (default) | "stapled" (the library's AsyncStapledStreamTransport over two in-memory half transports whose
          aclose() takes `wclose` / `rclose` loop turns; "connection closed" = both halves closed)      (c15_run.Connection)
+         | "tls" (the library's AsyncTLSStreamTransport made by the library's AsyncTLSListener - for layer "tcp":
+         AsyncTCPNetworkServer(ssl=ctx) - over an in-memory wire whose other end is a real ssl.SSLObject client: real
+         handshake / records / close_notify on the virtual-time loop; fields tls_max, rec_cuts, rec_early, coalesce,
+         end "ragged": vlib/c15_tls.py)
   layer "tie"  : a different kind of case (real AsyncTCPNetworkServer / AsyncStreamServer on a loopback socket stepped turn by
          turn on a virtual clock; request bytes readable around / in the very loop iteration in which the yielded timeout
          expires): format, runner, oracle, generation in vlib/c15_tie.py  [oracle only]
@@ -70,6 +74,8 @@ TRUSTED_BASE = [
     "socket transport, a listener proxy (public backend= extension point) observing the connection tasks; for the deadline-tie "
     "cases (vlib/c15_tie.py): the same plus the turn-stepped virtual-clock loop of vlib/c10_vloop.py, FIONREAD / POLLRDHUP on the "
     "server-side descriptor",
+    "for the TLS cases (vlib/c15_tls.py, layer tie with tls): CPython's ssl module / OpenSSL (SSLObject + MemoryBIO on both sides), "
+    "the harness's in-memory wire with its SSLObject peer, the certificate fixture vlib/c14_certs",
     "CPython 3.12 async generators / asyncio task scheduling / EasyNetwork cancel scopes: exercised, represented in the model "
     "only by their effect on the receive deadline",
     "payload codecs (str, json, struct) are parameters: a malformed request is a frame the codec rejects",
@@ -91,7 +97,10 @@ RULE = (
     "client.send_packet() with the send lock | deadline-tie case (real loopback server stepped turn by turn on a virtual clock) "
     "= per request 1-3 pieces, each readable k iterations before / in / after the iteration in which the yielded timeout's "
     "timer fires, malformed frames, the peer's FIN as a piece x yielded timeouts x requests per generator x max_recv x server "
-    "kind x receive path; non-trivial = a generator restart or an "
+    "kind x receive path x plain | TLS (one record per piece, or slices of one record) | in-memory session over a TLS connection "
+    "(AsyncTLSListener / AsyncTLSStreamTransport over an in-memory wire, SSLObject peer: TLS 1.2 / 1.3, record cut points, first "
+    "piece of a record early, records coalesced, end by close_notify / ragged EOF / reset, yielded timeouts expiring while the "
+    "server waits for bytes of the wire); non-trivial = a generator restart or an "
     "on_connection generator or a timeout or a malformed frame or a handler close occurred, keyed by layer/path/features; "
     "distinct by full case digest"
 )
@@ -115,8 +124,18 @@ def _runner(case: dict):
 
 
 def real_for_diff(case: dict, real: list[str]) -> list[str]:
-    # per-half detail of a stapled connection: for the oracle and the replay reader, not a line of the model
-    return [ln for ln in real if not ln.startswith("halves ")]
+    # per-half detail of a stapled connection / the peer's view of a TLS connection: for the oracle and the replay reader,
+    # not a line of the model
+    out = [ln for ln in real if not ln.startswith(("halves ", "tls "))]
+    if case.get("conn") == "tls":
+        out = [_no_aclose_count(ln) for ln in out]
+    return out
+
+
+def _no_aclose_count(ln: str) -> str:
+    # a TLS connection: the in-memory object is the WIRE under the library's TLS transport, which closes it once whatever
+    # the number of aclose() calls it received itself
+    return ln.split(" aclose_calls=")[0] if ln.startswith("transport ") else ln
 
 
 def run_real(case: dict) -> list[str]:
@@ -137,6 +156,8 @@ def model_input(case: dict, real: list[str]):
         return None     # real loopback sockets (closers in other tasks / arrivals tied with a deadline): oracle only
     if _has_pre_close(case):
         return None     # closing before asking for a request is not a construct of the model: oracle only
+    if case.get("conn") == "tls" and not _tls_modelled(case):
+        return None
     head = sers.model_head(case["spec"], case["path"], case.get("max_recv", 16384))
     if head is None:
         return None
@@ -162,6 +183,21 @@ def model_input(case: dict, real: list[str]):
         ops.append("gen")
         ops.extend(st(s) for s in g)
     return f"c15 {_model_layer(case)} {head}", ops
+
+
+def _tls_modelled(case: dict) -> bool:
+    """a TLS session whose observable lines are those of the plain in-memory transport (the model's): the peer leaves with
+    a clean close_notify (= EOF) or a reset that the server filters (after any OTHER wire error the TLS transport is dead:
+    the next read is an SSL EOF error, not the same error again); one wire read per record (coalesced records / a record
+    larger than the read size stay inside the SSL object, which hands the rest out WITHOUT a checkpoint: a `yield 0` poll
+    then gets a request where the plain transport - and the model - have a TimeoutError; both satisfy the property, rule
+    4b applies to both), i.e. no poll at all.  Everything else: oracle only."""
+    end = case.get("end", "eof")
+    if case.get("coalesce"):
+        return False
+    if not (end == "eof" or (end == "reset" and (case.get("filter", True) or case.get("layer") == "tcp"))):
+        return False
+    return not any(st.get("timeout") == 0 for st in _all_steps(case))
 
 
 def _all_steps(case: dict):
@@ -202,6 +238,8 @@ def model_post(case: dict, lines: list[str]) -> list[str]:
                 nresp = int(w[1])
             out.append(ln)
     out.append("wire " + core.hexs(_resp_bytes(case) * nresp))
+    if case.get("conn") == "tls":
+        out = [_no_aclose_count(ln) for ln in out]
     return out
 
 
@@ -284,6 +322,29 @@ def oracle(case: dict, real: list[str]) -> str | None:
             what = "a request" if e[0] == "item" else f"an exception ({e[0]})"
             return (f"after the handler had closed the client (before request #{e[3] if e[0] != 'item' else e[3] - 1}) "
                     f"{what} was delivered to generator {e[1]} instead of closing it")
+    # 2c. "when the client disconnects or the handler closes the client, the active generator is closed ... and the connection
+    #     is closed" - and not before: as long as the peer is there (it stays until `t_end`, whatever the way it leaves then)
+    #     and the handler has not closed the client, no generator is closed and no connection error is thrown into one
+    aux = _aux.get(core.case_digest(case))
+    if aux is not None and "t_end" in aux:
+        t_end = cr.tick_of(aux["t_end"])
+        for e in events:
+            if e[0] == "hclose":
+                break
+            if e[0] in ("gen-end-closed", "conn", "oserror") and e[2] < t_end:
+                what = ("generator " + e[1] + " was closed (the connection dropped)" if e[0] == "gen-end-closed"
+                        else f"a connection error ({e[0]}) was thrown into generator {e[1]}")
+                prev = next((x for x in reversed(events[:events.index(e)]) if x[0] in ("item", "timeout")), None)
+                after = ""
+                if prev is not None and prev[0] == "timeout":
+                    after = f", after the yielded timeout that expired at {cr.show_t(prev[2])}"
+                return (f"{what} at {cr.show_t(e[2])}{after}, although the peer was still connected (it leaves at "
+                        f"{cr.show_t(t_end)}: {case.get('end', 'eof')}) and the handler had not closed the client: "
+                        f"{e[3]} of {len(exp)} requests delivered" + _conn_text(case))
+    if case.get("conn") == "tls":
+        tl = next((ln for ln in real if ln.startswith("tls ")), "")
+        if "handshake=1" not in tl:
+            return f"the TLS handshake with a well-behaved peer did not complete: {tl!r}"
     # 2. complete when the session ended because the peer went away
     hclose = any(e[0] == "hclose" for e in events)
     ended_by_peer = (not hclose) and any(e[0] == "gen-end-closed" for e in events)
@@ -294,7 +355,6 @@ def oracle(case: dict, real: list[str]) -> str | None:
         if conn_err is not None and conn_err[3] != len(exp):
             return f"connection error reported to the handler after {conn_err[3]} of {len(exp)} requests"
     # 4. TimeoutError only if no complete request had arrived before the deadline
-    aux = _aux.get(core.case_digest(case))
     if aux is not None and lim is None:
         ends, acc = [], 0
         for f in case["frames"]:
@@ -365,6 +425,13 @@ def oracle(case: dict, real: list[str]) -> str | None:
     return None
 
 
+def _conn_text(case: dict) -> str:
+    if case.get("conn") == "tls":
+        return (f" (TLS connection: AsyncTLSStreamTransport over an in-memory wire, {case.get('tls_max', '1.3')}, "
+                f"layer {case.get('layer', 'low')}, {case['path']} receive path)")
+    return ""
+
+
 def _step_of(case: dict, ev, events) -> dict | None:
     # the k-th exception/item delivered to generator `name` corresponds to its k-th step
     name = ev[1]
@@ -426,6 +493,15 @@ def nontrivial(case: dict, real: list[str]) -> str | None:
                 break
     if case.get("conn", "single") != "single":
         feats.insert(0, case["conn"])
+        if case.get("conn") == "tls" and "timeout" in feats:
+            # a yielded timeout expired on a TLS connection and the handler received something afterwards
+            seen_to = False
+            for ln in real:
+                if ln.startswith("err ") and " timeout " in ln:
+                    seen_to = True
+                elif seen_to and ln.startswith(("req ", "err ")):
+                    feats.append("later")
+                    break
     if not feats:
         return None
     return f"{case.get('layer', 'low')}/{case['path']}/" + "+".join(feats)
@@ -463,7 +539,14 @@ def shrink(case: dict):
                 yield {**case, "onconn": oc[:j] + oc[j + 1:]}
     if case.get("after_close", "ebadf") != "ebadf":
         yield {**case, "after_close": "ebadf"}
-    if case.get("conn", "single") != "single":
+    if case.get("conn") == "tls":
+        # (a TLS case stays a TLS case: the plain twin is a different family)
+        for key, val in (("rec_cuts", [0]), ("rec_early", [False]), ("coalesce", False), ("tls_max", "1.3")):
+            if case.get(key, val) != val:
+                yield {**case, key: val}
+        if case.get("end") == "ragged":
+            yield {**case, "end": "eof"}
+    elif case.get("conn", "single") != "single":
         yield {k: v for k, v in case.items() if k not in ("conn", "wclose", "rclose")}
         if case.get("rclose"):
             yield {**case, "rclose": 0}
@@ -661,6 +744,97 @@ def _variants(rng, case: dict) -> None:
         case["rclose"] = rng.choice([0, 0, 0, 1, 2])
 
 
+def gen_tls_case(rng) -> dict | None:
+    """a session of the in-memory layers over a TLS connection (vlib/c15_tls.py), biased towards the part of the clause
+    that only exists there: yielded timeouts that EXPIRE while the server waits for bytes of the wire - before any byte of a
+    request, inside a request, inside a TLS record (first piece of the record early, the rest after the deadline) - the
+    handler going on, the peer sending more requests later; both receive paths, all three layers, TLS 1.2 / 1.3, records
+    coalesced in one read, clean / ragged / reset ends"""
+    c = gen_case(rng, ("low", "high", "tcp", "tcp"))
+    if c is None:
+        return None
+    c.pop("wclose", None)
+    c.pop("rclose", None)
+    c["conn"] = "tls"
+    c["tls_max"] = rng.choice(["1.3", "1.3", "1.2"])
+    c["rec_cuts"] = [rng.choice([0, 0, 1, 3, 5, 6, 12, -1, -9]) for _ in range(rng.randint(1, 4))]
+    c["rec_early"] = [rng.random() < 0.6 for _ in range(rng.randint(1, 3))]
+    if rng.random() < 0.2:
+        c["coalesce"] = True
+    if c["end"] == "eof" and rng.random() < 0.2:
+        c["end"] = "ragged"
+    if rng.random() < 0.75 and not _has_pre_close(c):
+        c["delays"] = [rng.choice([0, 1, 2, 3, 5]) for _ in range(rng.randint(1, 4))]
+        if not any(c["delays"]):
+            c["delays"].append(rng.choice([1, 2, 4]))
+        c["end_delay"] = rng.choice([0, 1, 3])
+        # enough yields to outlive the timeouts that expire
+        last = c["gens"][-1] if c["layer"] != "low" else c["gens"][0]
+        j0 = [0]
+        for _ in range(rng.choice([2, 3, 5, 8])):
+            last.append(step(rng, j0, closing=0.0))
+        # every finite timeout of the case re-drawn with one counter (distinct dyadic fractions: no tie with an arrival)
+        j = rng.randrange(19)
+        for st in _all_steps(c):
+            if st.get("timeout") == 0 and rng.random() < 0.5:
+                continue
+            if st.get("timeout") or rng.random() < 0.7:
+                st["timeout"] = rng.choice([0, 1, 1, 2]) * cr.UNIT + (1 << (j % 19))
+                j += 1
+    return c
+
+
+def _tls_corpus() -> list[dict]:
+    U = cr.UNIT
+    ok = sers.enc_val("ok")
+    cases = []
+
+    def to(k: int, frac: int, **kw) -> dict:
+        return {"sleep": 0, "timeout": k * U + (1 << frac), "resp": False, "close": False, **kw}
+
+    plain = {"sleep": 0, "timeout": None, "resp": False, "close": False}
+    for layer in ("low", "high", "tcp"):
+        for path in ("copy", "buffered"):
+            for tls_max in ("1.3", "1.2"):
+                base = {"spec": LINE, "path": path, "layer": layer, "conv": False, "conn": "tls", "tls_max": tls_max,
+                        "filter": True, "max_recv": 16384, "onconn": None, "resp_packet": ok}
+
+                def gens(steps: list[dict], per_gen: int) -> list[list[dict]]:
+                    if layer == "low":
+                        return [steps]
+                    return [steps[i:i + per_gen] for i in range(0, len(steps), per_gen)]
+
+                # 1. the history of the clause: a request, silence until the yielded timeout expires (TimeoutError, the
+                #    handler answers and goes on), a second request, a third one cut in two by one more expired timeout,
+                #    the peer leaves (close_notify).  Two events per generator: the later requests go to restarted generators.
+                steps = [to(1, k, resp=True) for k in range(12)]
+                for rec_cuts, early in (([0], False), ([3], True), ([-5], True)):
+                    cases.append({**base, "frames": [_valid(LINE, "one"), _valid(LINE, "two"), _valid(LINE, "three")],
+                                  "cuts": [4, 4, 3, 50], "delays": [0, 3, 3, 3], "end": "eof", "end_delay": 2,
+                                  "rec_cuts": rec_cuts, "rec_early": [early], "gens": gens(steps, 2)})
+                # 2. the timeout expires before any byte of the connection has arrived (and while the first piece of the
+                #    first record is all the server has); ragged end / reset instead of close_notify
+                for end, rec_cuts in (("eof", [0]), ("ragged", [5]), ("reset", [1])):
+                    cases.append({**base, "frames": [_valid(LINE, "a"), _valid(LINE, "b")], "cuts": [1 << 20],
+                                  "delays": [4], "end": end, "end_delay": 3, "rec_cuts": rec_cuts, "rec_early": [True],
+                                  "gens": gens([to(1, k) for k in range(10)], 3)})
+            # 3. pipelined requests in one read of the wire (several records, the SSL object hands them out one by one),
+            #    polled with `yield 0`; then silence, timeouts, one more request
+            base = {"spec": LINE, "path": path, "layer": layer, "conv": False, "conn": "tls", "filter": True,
+                    "max_recv": 16384, "onconn": None, "resp_packet": ok}
+            poll = {"sleep": 0, "timeout": 0, "resp": False, "close": False}
+            steps = [plain] + [poll] * 4 + [to(1, k) for k in range(6)]
+            cases.append({**base, "frames": [_valid(LINE, x) for x in "abc"] + [_fr(b"\xe9\n", "parse"), _valid(LINE, "late")],
+                          "cuts": [2, 2, 2, 2, 50], "delays": [0, 0, 0, 0, 5], "end": "eof", "end_delay": 1, "coalesce": True,
+                          "gens": [steps] if layer == "low" else [steps[:3], steps[3:]]})
+            # 4. the handler closes the client after a timeout has expired (TLS closing handshake with the peer), and the
+            #    generator finishing while the peer is still there
+            cases.append({**base, "frames": [_valid(LINE, "x"), _valid(LINE, "y"), _valid(LINE, "z")], "cuts": [2], "delays": [0, 3, 3],
+                          "end": "eof", "end_delay": 2, "rec_cuts": [0, 2], "rec_early": [True],
+                          "gens": [[to(1, 1), to(1, 2), to(1, 3), to(1, 4, resp=True, close=True), plain]]})
+    return cases
+
+
 def corpus() -> list[dict]:
     U = cr.UNIT
     cases = []
@@ -768,6 +942,9 @@ def corpus() -> list[dict]:
     # deadline of the yielded timeout, just before it, just after it, whole and in pieces (vlib/c15_tie.py)
     from vlib import c15_tie
     cases.extend(c15_tie.corpus())
+    # the in-memory layers over a TLS connection (the library's AsyncTLSListener / AsyncTLSStreamTransport over an in-memory
+    # wire, a real ssl.SSLObject peer): yielded timeouts that expire while the server waits for bytes of the wire
+    cases.extend(_tls_corpus())
     return cases
 
 
@@ -778,6 +955,7 @@ def generate(rng, tier: str, boost: int):
     sub = rng.getrandbits(32)
     lrng = core.sub_rng(sub, "c15-loop")
     trng = core.sub_rng(sub, "c15-tie")
+    xrng = core.sub_rng(sub, "c15-tls")
     for i in range(n):
         c = gen_case(rng, layers)
         if c is not None:
@@ -786,6 +964,10 @@ def generate(rng, tier: str, boost: int):
             yield c15_loop.gen_case(lrng)       # 250 (quick) / 1250 loopback sessions, spread over the run
         if i % 10 == 5:
             yield c15_tie.gen_case(trng)        # 500 (quick) / 2500 deadline-tie sessions
+        if i % 8 == 3:
+            c = gen_tls_case(xrng)              # 625 (quick) / 3125 sessions over a TLS connection (own random stream)
+            if c is not None:
+                yield c
 
 
 def extra_coverage(stats) -> dict:
